@@ -336,3 +336,60 @@ def peel_sequence(flow: Flow, expr: ast.AST, depth: int = 10):
 def enum_members(ctx: Context, enum_qual: str) -> list[str]:
     ci = ctx.p.cls(enum_qual)
     return [name for name, val in ci.attrs.items() if not name.startswith('_')]
+
+
+# --------------------------------------------------------------------------- swapped arguments (generic lint, per anchor file)
+
+def anchor_files(prop: str) -> list[str]:
+    import json
+    from ..report import VERIF
+    for line in (VERIF / 'properties.jsonl').read_text().splitlines():
+        if line.strip():
+            rec = json.loads(line)
+            if rec['id'] == prop:
+                return list(rec['anchors'].get('files', []))
+    return []
+
+
+def swapped_argument_obligations(ctx: Context, rule: str) -> int:
+    """In the files this property is anchored in: a positional argument that is a plain name equal to the
+    name of a *different* parameter of the (repository) callee is passed to the wrong parameter."""
+    from ..callgraph import CallGraph
+    p = ctx.p
+    files = set(anchor_files(ctx.prop))
+    cg = CallGraph(p)
+    n = 0
+    seen = set()
+    for fi in sorted(p.functions.values(), key=lambda f: f.qualname):
+        if fi.module.relpath not in files:
+            continue
+        classes = [fi.cls] if fi.cls is None else ([c for c in p.subclasses(fi.cls)] or [fi.cls])
+        for sc in classes[:6]:
+            for target, tcls, site in cg.successors(fi, sc):
+                if not isinstance(site, ast.Call) or (id(site), target.qualname) in seen:
+                    continue
+                seen.add((id(site), target.qualname))
+                params = target.params
+                if target.cls is not None and target.parent is None and target.kind != 'staticmethod':
+                    params = params[1:]
+                if any(isinstance(a, ast.Starred) for a in site.args) or len(params) < 2:
+                    continue
+                bad = []
+                for i, a in enumerate(site.args):
+                    if i >= len(params):
+                        break
+                    nm = a.id if isinstance(a, ast.Name) else (a.attr if isinstance(a, ast.Attribute) else None)
+                    if nm is None or nm == params[i]:
+                        continue
+                    if nm in params and params.index(nm) != i:
+                        # passing `latitude` where the callee expects `longitude`
+                        other = params.index(nm)
+                        passed_elsewhere = other < len(site.args) and isinstance(site.args[other], (ast.Name, ast.Attribute)) and \
+                            (site.args[other].id if isinstance(site.args[other], ast.Name) else site.args[other].attr) == nm
+                        if not passed_elsewhere:
+                            bad.append(f"argument {i} `{nm}` goes to parameter `{params[i]}` of {target.short}")
+                n += 1
+                ctx.check(rule, not bad, "positional arguments reach the parameters of the same name", fi, site,
+                          construct=f"{fi.short}: {norm_text(site.func)}({', '.join(norm_text(a) for a in site.args)}) -> {target.short}({', '.join(params)})",
+                          detail='; '.join(bad))
+    return n
